@@ -49,6 +49,9 @@ fn replay_alphabet() -> Vec<u64> {
     a.extend(1790..=1794);
     // window edges far from zero (the index arithmetic is on u64 / usize)
     a.extend([h - WINDOW, h - WINDOW + 1, h]);
+    // jumps by an exact multiple of 2^32 (a shift amount held in 32 bits would be 0) and landing a few
+    // ids above one (the shift would be those few ids instead of clearing the window)
+    a.extend([1u64 << 32, h - 10]);
     a.extend([VMAX - 1 - WINDOW, VMAX - WINDOW, VMAX - 2, VMAX - 1, VMAX]);
     a
 }
